@@ -55,8 +55,31 @@ func c01Decoders(w *World, r *Report) {
 				if b, isC := intConst(c.Call.Args[1]); !isC || b != 10 {
 					bad = "the attribute is written in decimal but read in another base"
 				}
-				if bs, isC := intConst(c.Call.Args[2]); !isC || !(bs == 0 || bs == 32 || bs == 64) {
-					bad = "the attribute is read with a bit size that rejects values the field can hold"
+				// the widest type the parsed number is converted to (the field's type): the bit size must not be narrower
+				widest := int64(0)
+				for _, rf := range *val.Referrers() {
+					if cv, ok := rf.(*ssa.Convert); ok {
+						if bt, ok := cv.Type().Underlying().(*types.Basic); ok {
+							sz := int64(64)
+							switch bt.Kind() {
+							case types.Uint32, types.Int32:
+								sz = 32
+							case types.Uint16, types.Int16:
+								sz = 16
+							case types.Uint8, types.Int8:
+								sz = 8
+							}
+							if sz > widest {
+								widest = sz
+							}
+						}
+					}
+				}
+				if widest == 0 {
+					widest = 64
+				}
+				if bs, isC := intConst(c.Call.Args[2]); !isC || !(bs == 0 || bs >= widest) {
+					bad = "the attribute is read with a bit size that rejects values the field can hold (and the encoder writes)"
 				}
 			}
 			// every store that depends on the parsed value lies behind the err == nil edge
